@@ -20,7 +20,9 @@ ObjPool == { [trait |-> "Ta", cont |-> "Box", ctx |-> "Arc"], [trait |-> "Ta", c
              [trait |-> "Tb", cont |-> "Ref", ctx |-> "none"], [trait |-> "Tb", cont |-> "Mut", ctx |-> "Arc"],
              [trait |-> "Tc", cont |-> "Box", ctx |-> "Arc"], [trait |-> "Tc", cont |-> "Mut", ctx |-> "none"],
              [trait |-> "Td", cont |-> "Box", ctx |-> "Arc"], [trait |-> "Td", cont |-> "Ref", ctx |-> "none"],
-             [trait |-> "Te", cont |-> "Mut", ctx |-> "none"] }
+             [trait |-> "Te", cont |-> "Mut", ctx |-> "none"],
+             \* Tf: entries whose result is a pointer (void *, const void *, typed), by reference and consuming
+             [trait |-> "Tf", cont |-> "Box", ctx |-> "Arc"], [trait |-> "Tf", cont |-> "Box", ctx |-> "none"] }
 GroupPool == { [name |-> "Ga", mand |-> <<"Tb">>, opt |-> <<"Ta">>, insts |-> <<[cont |-> "Box", ctx |-> "Arc"]>>],
                [name |-> "Gb", mand |-> <<"Tc">>, opt |-> <<"Tb">>, insts |-> <<[cont |-> "Mut", ctx |-> "none"], [cont |-> "Ref", ctx |-> "Arc"]>>],
                [name |-> "Gc", mand |-> <<"Tb", "Tc">>, opt |-> <<>>, insts |-> <<[cont |-> "Box", ctx |-> "none"]>>],
@@ -34,6 +36,10 @@ Cfgs == { [default_container |-> "", default_context |-> "", function_prefix |->
 Models == { [objects |-> o, groups |-> g, config |-> c, foreign |-> f, ctxgeneric |-> x] :
               o \in {x \in SUBSET ObjPool : Cardinality(x) \in 1..3}, g \in {x \in SUBSET GroupPool : Cardinality(x) <= 2},
               c \in Cfgs, f \in BOOLEAN, x \in BOOLEAN }
+
+(* what the output path holds when the tool starts: nothing, or the header of an earlier run for another (larger or   *)
+(* smaller) API.  C18: the header written is a function of input and configuration alone - not of this history.       *)
+OutputHistory == {"absent", "longer", "shorter"}
 
 (* ---------------- Part 2: one wrapper invocation ---------------- *)
 VARIABLES phase,   \* "idle" | "called"
